@@ -21,19 +21,23 @@ pub struct Prog {
 pub fn programs() -> Vec<Prog> {
     let mut out = vec![];
     let comps = ["V", "H", "B", "F", "N", "W", "L", "P"];
-    let mut masks: Vec<(usize, bool, bool)> = vec![];
+    let mut masks: Vec<(usize, bool, bool, bool)> = vec![];
     for m in 1..(1usize << comps.len()) {
         // every single component, every pair, the full set, and a few triples
         let c = m.count_ones();
         if c <= 2 || m == (1 << comps.len()) - 1 || m % 7 == 0 {
-            masks.push((m, false, m % 3 == 0));
+            masks.push((m, false, m % 3 == 0, false));
         }
     }
     // runtime-array variants
     for m in [0usize, 1, 2, 9, 63, 127, 255] {
-        masks.push((m, true, m % 2 == 1));
+        masks.push((m, true, m % 2 == 1, false));
     }
-    for (m, with_r, extras) in masks {
+    // the runtime-array struct declared before all other structs (derive lists are per struct, whatever precedes)
+    for m in [1usize, 2, 3, 4, 9, 16, 63, 255] {
+        masks.push((m, true, m % 2 == 0, true));
+    }
+    for (m, with_r, extras, r_first) in masks {
         let has = |c: &str| m & (1 << comps.iter().position(|x| *x == c).unwrap()) != 0;
         let mut src = String::new();
         let mut structs = vec![];
@@ -41,6 +45,11 @@ pub fn programs() -> Vec<Prog> {
         let mut fparams = vec![];
         let mut binding = 0;
         let mut body = String::new();
+        if with_r && r_first {
+            src.push_str(&format!("struct RData {{ n: vec4<u32>, items: array<vec4<f32>> }};\n@group(0) @binding({binding}) var<storage, read> r_data: RData;\n"));
+            binding += 1;
+            structs.push(RoleStruct { name: "RData", host: true, rts: true });
+        }
         if has("V") {
             src.push_str("struct VOnly { @location(0) pos: vec4<f32>, @builtin(vertex_index) vi: u32, @location(1) uv: vec2<f32> };\n");
             structs.push(RoleStruct { name: "VOnly", host: false, rts: false });
@@ -87,7 +96,7 @@ pub fn programs() -> Vec<Prog> {
             structs.push(RoleStruct { name: "LInner", host: true, rts: false });
             structs.push(RoleStruct { name: "LOuter", host: true, rts: false });
         }
-        if with_r {
+        if with_r && !r_first {
             src.push_str(&format!("struct RData {{ n: vec4<u32>, items: array<vec4<f32>> }};\n@group(0) @binding({binding}) var<storage, read> r_data: RData;\n"));
             binding += 1;
             structs.push(RoleStruct { name: "RData", host: true, rts: true });
@@ -101,7 +110,7 @@ pub fn programs() -> Vec<Prog> {
         src.push_str(&format!("@vertex fn vs_main({}) -> @builtin(position) vec4<f32> {{\n    var acc: f32 = 0.0;\n{body}    return vec4<f32>(acc);\n}}\n", vparams.join(", ")));
         src.push_str(&format!("@fragment fn fs_main({}) -> @location(0) vec4<f32> {{\n    return vec4<f32>(1.0);\n}}\n", fparams.join(", ")));
         src.push_str("@compute @workgroup_size(2, 3) fn cs_main() {\n}\n");
-        let key = format!("roles={}{}{}", comps.iter().filter(|c| has(c)).cloned().collect::<String>(), if with_r { "R" } else { "" }, if extras { "+extras" } else { "" });
+        let key = format!("roles={}{}{}", comps.iter().filter(|c| has(c)).cloned().collect::<String>(), if with_r && r_first { "R1st" } else if with_r { "R" } else { "" }, if extras { "+extras" } else { "" });
         out.push(Prog { key, src, structs });
     }
     out
@@ -327,9 +336,82 @@ pub fn run(tier: &str) -> i32 {
             }
         }
     }
+    // ---- non-interference over the other properties' program spaces: whatever a shader contains (every resource kind,
+    // constants, overrides, push constants, entry shapes, vertex inputs, call graphs), the tokens outside the user struct
+    // items are the same under every option set
+    {
+        let mut corpus: Vec<(String, String)> = crate::c18::corpus().into_iter().map(|(k, s, _)| (format!("atoms|{k}"), s)).collect();
+        for (i, p) in crate::c14::space(false).into_iter().enumerate() {
+            if thorough || i % 5 == 0 {
+                corpus.push((format!("c14|{}", p.key), p.src));
+            }
+        }
+        for p in crate::c12::space(false) {
+            corpus.push((format!("c12|{}", p.key), p.src));
+        }
+        for (i, p) in crate::c07::space(false).into_iter().enumerate() {
+            if thorough || i % 9 == 0 {
+                corpus.push((format!("c07|{}", p.key), p.src));
+            }
+        }
+        for (i, p) in crate::c03::space_c(false).into_iter().chain(crate::c03::space_a_k(false, 2)).enumerate() {
+            if thorough || i % 8 == 0 {
+                corpus.push((format!("c03|{}", p.key), p.src));
+            }
+        }
+        let alts = [
+            Config::default(),
+            Config { encase: true, ..Config::default() },
+            Config { bytemuck_vertex: true, serde: true, encase: true, repr: Repr::Nalgebra, ..Config::default() },
+            Config { bytemuck_host: true, encase: true, repr: Repr::Glam, ..Config::default() },
+            Config { validate: Validate::All, encase: true, serde: true, ..Config::default() },
+            Config { bytemuck_vertex: true, bytemuck_host: true, ..Config::default() },
+        ];
+        let res = par_map(&corpus, |(key, src)| {
+            let module = match naga::front::wgsl::parse_str(src) {
+                Ok(m) => m,
+                Err(_) => return (key.clone(), vec![], 0usize),
+            };
+            let user: Vec<String> = module.types.iter().filter(|(_, t)| matches!(t.inner, naga::TypeInner::Struct { .. })).filter_map(|(_, t)| t.name.clone()).collect();
+            let user_ref: Vec<&str> = user.iter().map(|s| s.as_str()).collect();
+            let mut reference: Option<(String, Vec<String>)> = None;
+            let mut diffs = vec![];
+            let mut n_ok = 0;
+            for c in &alts {
+                if let Outcome::Ok(t) = generate(src, c) {
+                    match split(&t, &user_ref) {
+                        Ok(sp) => {
+                            n_ok += 1;
+                            match &reference {
+                                None => reference = Some((c.key(), sp.rest)),
+                                Some((rk, r)) => {
+                                    if *r != sp.rest {
+                                        let pos = r.iter().zip(sp.rest.iter()).position(|(a, b)| a != b).unwrap_or(r.len().min(sp.rest.len()));
+                                        diffs.push((c.key(), format!("tokens outside the struct items differ from {rk} at #{pos}: `{}` vs `{}`", r.get(pos).cloned().unwrap_or_default(), sp.rest.get(pos).cloned().unwrap_or_default())));
+                                    }
+                                }
+                            }
+                        }
+                        Err(e) => diffs.push((c.key(), format!("output not readable: {e}"))),
+                    }
+                }
+            }
+            (key.clone(), diffs, n_ok)
+        });
+        for ((key, diffs, n_ok), (_, src)) in res.into_iter().zip(corpus.iter()) {
+            rep.states += 1;
+            rep.evaluations += alts.len() as u64;
+            if n_ok >= 2 {
+                rep.count("corpus programs compared across option sets");
+            }
+            for (ck, d) in diffs {
+                rep.violation(format!("corpus|{key}|{ck}"), format!("non-interference: {d}"), json!({"wgsl": src, "config": ck}));
+            }
+        }
+    }
     rep.set("compiled_modules", json!(index.len()));
     rep.sample(json!({"key": progs[0].key, "wgsl": progs[0].src}));
     rep.sample(json!({"key": progs[progs.len() - 1].key, "wgsl": progs[progs.len() - 1].src}));
-    rep.rule = format!("{} role shaders (vertex-only, host-only, both, fragment-input-only, nested host, workgroup/private host, runtime-array-terminated; with/without consts, overrides, push constant, textures; entries of all three stages) x all 192 configurations (16 derive masks x 3 representations x formatter x validation). Oracle: derive/repr/assertion truth table per (role, options); differential non-interference (tokens outside user struct items identical across all configurations of a shader; fields depend only on the representation). Trait-implementation probes on compiled modules confirm that the derives mean what they say.", progs.len());
+    rep.rule = format!("{} role shaders (vertex-only, host-only, both, fragment-input-only, nested host, workgroup/private host, runtime-array-terminated; with/without consts, overrides, push constant, textures; entries of all three stages) x all 192 configurations (16 derive masks x 3 representations x formatter x validation). Oracle: derive/repr/assertion truth table per (role, options); differential non-interference (tokens outside user struct items identical across all configurations of a shader; fields depend only on the representation). The same differential over ~1 500 programs of the other properties' spaces under 6 option sets. Trait-implementation probes on compiled modules confirm that the derives mean what they say.", progs.len());
     rep.finish()
 }
